@@ -2,6 +2,7 @@
 import os, sys
 sys.path.insert(0, os.path.dirname(os.path.abspath(__file__)))
 import zfgen
+import zfcoq
 from zfgen import hx
 import c24
 
@@ -17,6 +18,16 @@ def gen(rng, tier):
         data, items = zfgen.gen_file(rng, caseless=caseless, nlines=nl)
         expected = " ; ".join(items + ["after=0"])
         yield f"zfx {c24.modes(rng)} {hx(data)} {hx(expected.encode())}"
+
+
+def gen_render(rng, tier):
+    """Abstract lines + legal `choices` in the shape of Spec/ZfRenderS.v (checks/zfcoq.py), rendered by the Python mirror; the
+    runners re-render them with the extracted Coq renderer."""
+    n = 4000 if tier == "quick" else 100000
+    for i in range(n):
+        nl = rng.choice([1, 2, 3, 5, 8, 12]) if rng.random() < 0.97 else rng.randint(20, 40)
+        lines, data, expected = zfcoq.gen_file(rng, nlines=nl)
+        yield f"zrc {c24.modes(rng)} {hx(data)} {hx(expected.encode())} {zfcoq.ser_lines(lines)}"
 
 
 def nontrivial(case, impl, model, oracle):
@@ -50,6 +61,16 @@ CHECK = {
                   "comments, parentheses spanning lines, quoted/unquoted strings, \\c and \\DDD escapes (incl. escaped and quoted line feeds), IPv6 text forms, "
                   "leading zeros/plus signs, LF/CRLF, final line with or without line ending; expected = the generating records with their line numbers; "
                   "implementation and model are each compared with it and with each other; non-trivial = at least one record and the expected parse was produced")},
+        {"name": "render", "runner_name": "C24_run", "impl_bin": "impl_c24", "extract": "Extract/ExC24.v", "driver": "run_c24.ml",
+         "gen": gen_render, "nontrivial": nontrivial, "classify": classify, "finding_matches": finding_matches,
+         "exhaustive": {"quick": False, "thorough": False},
+         "rule": ("seeded abstract files WITH explicit `choices` values in the shape of the Coq specification Spec/ZfRenderS.v (every constructor: owner forms, "
+                  "TcNone/T/C/TC/CT, mnemonic case flags and TYPEnnn/CLASSnnn, separators built from blank runs and ( ) line-break comment items, per-octet "
+                  "ERaw/EChar/EDec, quoted/unquoted strings, '+'/leading zeros, IPv6 dropped zeros and case, \\# with word breaks and digit case, all four line "
+                  "terminators, $ORIGIN/$TTL in any case), rendered by the Python mirror checks/zfcoq.py; the model-side runner decodes the choices, renders them "
+                  "with the EXTRACTED Coq renderer and requires: same octets, Coq file_ok = true, Coq number_lines = the Python expectation; then the real "
+                  "parser and the model must both return exactly what Coq's number_lines denotes (the hypothesis space of c23_file_roundtrip exercised on the "
+                  "real code); non-trivial = at least one record and the expected parse was produced")},
     ],
     "trusted_base": [
         "Coq 8.16.1 kernel; axioms: none",
